@@ -55,6 +55,15 @@ CHECKS = {
    "Bounded-exhaustive enumeration of inputs through the REAL connection loop over an in-memory net.Conn whose Read returns exactly the harness-chosen segment; all output judged by an independent strict RESP2/RESP3 parser: (args) every registered command x arity 0..2 over a 14-value hostile alphabet + arity 3 reduced (thorough: arity 3 full, arity 4 reduced) on keys of every kind, RESP2 and after HELLO 3; (catalog) the whole command catalogue over its full argument domains; (bytes) values with CR/LF/NUL/empty/RESP look-alikes through every reader; (seg) EVERY cut of each 1..3-command stream into <= 3 segments, pipelining, bulk strings around 8192 bytes, replies around multiples of 1024 bytes; (junk) every prefix and single-byte corruption of sample commands. Oracle: no panic, exactly one complete well-formed reply per command (one confirmation per channel for the subscribe family), stored bytes returned unaltered, segmented/pipelined output identical to one-command-per-write output, PING on another connection still answers.",
    "Reply values are judged by C01/C14-C17; streams bounded to 3 commands / 3 segments / 20 KB; many simultaneous connections are not enumerated.",
    "bounded-exhaustive input and segmentation enumeration through the real read loop", "DESIGN.md 6 C12"),
+
+ "C06": ("model_checking",
+   "Exhaustive enumeration of the authorisation decision table through the real dispatcher: rule sets = categories(7) x commands(5) x key patterns(6) x channel patterns(4) installed with ACL SETUSER, each in the states unauthenticated / authenticated / rules changed after authentication, x ~110 probes (every command family, multi-key commands in permitted/forbidden mixes, store commands with read and write keys, sub-commands, pub/sub with several channels, key-less and exempt commands); oracle = declarative evaluator of docs/docs/acl.md over the STORED profile (authenticated, enabled, every category, command|subcommand, ALL read keys, ALL write keys, all channels) and 'denied => state unchanged'.",
+   "Command categories come from the server's command table, key positions of the probes from the harness; glob alphabet of 3 patterns.",
+   "exhaustive decision-table enumeration against a declarative policy evaluator", "DESIGN.md 6 C06"),
+ "C11": ("model_checking",
+   "Explicit-state BFS (depth 5 quick / 6 thorough) over the real dispatcher + ACL module with the ACL file on the in-memory file system (JSON and YAML): administrator actions SETUSER x {on, off, >p, <p, #h, !h, nopass, resetpass, full rules}, DELUSER (one, several, default), SAVE, LOAD MERGE|REPLACE, restart; two subject connections with AUTH / HELLO AUTH (right, wrong, other user's, hash-valued passwords), ACL WHOAMI and a data probe; per-transition conformance to a reference user table: success <=> exists, enabled, nopass or plaintext or SHA-256 match; failure leaves identity unchanged; stored credentials follow the rules; disabled/deleted users can no longer act (all their connections); default undeletable; SAVE + LOAD/restart is the identity.",
+   "MERGE semantics (flags of the file win, lists united) are taken from the implementation's own description because the docs are silent.",
+   "explicit-state BFS over the real step function, reference user table", "DESIGN.md 6 C11"),
 }
 NOT_YET = "check not built yet (work in progress; see DESIGN.md section 9 for build order)"
 m={"version":1,
